@@ -4,14 +4,16 @@
 //! index 0..W-1 (index 0 and 1 fail inside the constructor), and into the final flush.
 //!
 //! Family `cont` (a caller that keeps going after an error; deterministic, independent of the seed):
-//!   cont \t frontend \t keys \t k=<index>/<W> \t at=<call>:<j>of<m> \t <fault>
+//!   cont \t frontend \t keys \t k=<index>/<W> \t at=<call>:<j>of<m> \t <fault> \t <calls>
 //! One TRANSIENT fault (fother = Err(Other), z = Ok(0)) at write call k, everything else accepted.
 //! The caller ignores the error, issues the remaining add/insert calls and into_inner()/finish(),
 //! each under catch_unwind. `at` says which write of which API call the fault hits in the in-memory
 //! schedule (new | i<n> = n-th key | fin; j-th of m write_all chunks; for fin the checksum write is
 //! the last one). S = finished=no | finished=yes | finished=yes-but-incomplete; the specification
-//! says finished=no whenever the fault was consumed (k < W). The builder state after an error is
-//! not modelled (the chunks emitted afterwards depend on it): M is `na` for this family.
+//! says finished=no whenever the fault was consumed (k < W). The last field carries the write_all chunks
+//! of the in-memory build (as in the other families); the model (Writer.run_session_cont) says what
+//! every call returns: after a failed write the builder refuses every later call with Err(Io(Other))
+//! and writes nothing more. M = per-call results | result of into_inner | sink length | sink digest.
 use crate::c07::*;
 use crate::common::*;
 use std::io::ErrorKind;
@@ -83,13 +85,14 @@ fn cont_cases(stats: &mut Stats) -> Vec<String> {
             for f in [Resp::Fail(ErrorKind::Other), Resp::Zero] {
                 stats.bump("cont_keep_going_after_error");
                 cases.push(format!(
-                    "cont\t{}\t{}\tk={}/{}\tat={}\t{}",
+                    "cont\t{}\t{}\tk={}/{}\tat={}\t{}\t{}",
                     kind,
                     keys_string(&kvs),
                     k,
                     r.w,
                     locate(&r, k),
-                    script_string(&[f])
+                    script_string(&[f]),
+                    calls
                 ));
                 // the same fault for a caller that stops at the first error (fully modelled)
                 let mut s = vec![Resp::Accept(ALL); k];
@@ -135,13 +138,16 @@ fn execute_cont(case: &str) -> String {
         Ok(Err(_)) => "does-not-open".to_string(),
         Err(_) => "open-panics".to_string(),
     };
+    // M: what every call returned (constructor first), what into_inner/finish returned, what the sink holds
     format!(
-        "S:{}\tM:na\tX:{}\tD:consumed={} calls={} fin={} sink={}/{} {}",
+        "S:{}\tM:{}|{}|len={}|dig={:08x}\tX:{}\tD:consumed={} sink={}/{} {}",
         s,
-        x,
-        consumed,
         log.calls.join(","),
         log.fin.unwrap_or_else(|| "none".to_string()),
+        sink.data.len(),
+        fnv(&sink.data),
+        x,
+        consumed,
         sink.data.len(),
         r.bytes.len(),
         opens
